@@ -118,7 +118,7 @@ def fill(claim, na):
           'root that is Fresh, or - for shallow copies - touches only what a shallow copy owns '
           '(legs/_labels lists) or what was re-bound to a fresh value on every path before; '
           'operands are not passed to workers that write that parameter; no in-place store '
-          'through X.charges / X.slices anywhere in the package; functions with an  flag '
+          'through X.charges / X.slices anywhere in the package; functions with an inplace flag '
           'alias self only on the inplace branch; MPS/MPO constructors store copies. '
           'Observational equality of values is not needed (no write, no change) and not decided; '
           'tensors reaching an in-place call through containers/callbacks in the algorithms are '
